@@ -162,7 +162,7 @@ inline bool operator>(const Q& a, const Q& b) { return Q::cmp(a, b) == 1; }
 inline bool operator<=(const Q& a, const Q& b) { int c = Q::cmp(a, b); return c == -1 || c == 0; }
 inline bool operator>=(const Q& a, const Q& b) { int c = Q::cmp(a, b); return c == 1 || c == 0; }
 inline bool operator==(const Q& a, const Q& b) { return Q::cmp(a, b) == 0; }
-inline bool operator!=(const Q& a, const Q& b) { int c = Q::cmp(a, b); return c == -1 || c == 1; }
+inline bool operator!=(const Q& a, const Q& b) { return Q::cmp(a, b) != 0; }   // IEEE: unordered values are 'not equal'
 #define VERIF_Q_CMP(OP) \
     template<typename T, typename VERIF_Q_ARITH(T)> inline bool operator OP(const Q& a, T b) { return a OP Q(b); } \
     template<typename T, typename VERIF_Q_ARITH(T)> inline bool operator OP(T a, const Q& b) { return Q(a) OP b; }
